@@ -87,7 +87,9 @@ INCOMPLETE = [[[0], [1, 2]], [[3], [2], [0]], [[1], [3]], []]
 # (views read, algorithms run) and filtered in place - it is then exactly COMPLETE
 COMPLETE_BY_HISTORY = [([[[0], [1, 2], [3], [4]], [[3], [2], [1], [0]], [[1], [0, 3], [2]]], {"remove": [4], "rate": None, "remove_empty": False}),
                        ([[[0], [1, 2], [3], [4]], [[3], [2], [1], [0]], [], [[1], [0, 3], [2]]], {"remove": [4], "rate": None, "remove_empty": True}),
-                       ([[[0], [1, 2], [3], [4]], [[3], [2], [1], [0]], [[1], [0, 3], [2]]], {"remove": [], "rate": 0.5, "remove_empty": False})]
+                       ([[[0], [1, 2], [3], [4]], [[3], [2], [1], [0]], [[1], [0, 3], [2]]], {"remove": [], "rate": 0.5, "remove_empty": False}),
+                       # complete, fresh, but with hundreds of rankings (counts beyond the small integers the interpreter shares)
+                       ([[[0], [1, 2], [3]], [[3], [2], [1], [0]], [[1], [0, 3], [2]]] * 100, None)]
 
 
 def outcome(alg, D, s, past=None):
@@ -130,6 +132,8 @@ class Applic(Suite):
                 cases.append({"alg": t, "s": s})
             for k, s in enumerate(core[::3] + [gen.GENERIC]):         # complete data that has a past (became complete by an in-place removal)
                 cases.append({"alg": t, "s": s, "hist": 1 + k % 3})
+            if t[0] not in ("exact", "parcons") or tier == "thorough":      # ... or that is simply large (300 rankings)
+                cases.append({"alg": t, "s": rng.choice(core + [gen.GENERIC]), "hist": 4})
         return cases
 
     def run(self, case):
